@@ -276,7 +276,7 @@ impl Space for Bracket {
 pub fn space(tier: Tier, id: &str) -> Option<Box<dyn Space>> {
     let deep = tier == Tier::Thorough;
     match id {
-        "main" => Some(Box::new(Main { en: main_space(CO, PLAIN, deep) })),
+        "main" => Some(Box::new(Main { en: main_space(CO, PLAIN, deep, core_leaves(CO, PLAIN)) })),
         "bracket" => Some(Box::new(Bracket::new(bracket_space(CO, deep)))),
         _ => None,
     }
@@ -311,7 +311,7 @@ pub fn validate_all(ens: &[&Enumerator]) -> Result<(u64, u64), String> {
 
 fn run(ctx: &Ctx) -> i32 {
     let deep = ctx.tier == Tier::Thorough;
-    let main = main_space(CO, PLAIN, deep);
+    let main = main_space(CO, PLAIN, deep, core_leaves(CO, PLAIN));
     let br = bracket_space(CO, deep);
     let (nform, skipped) = match validate_all(&[&main, &br]) {
         Ok(x) => x,
@@ -331,7 +331,8 @@ fn run(ctx: &Ctx) -> i32 {
         }
     }
     let sections: Vec<Value> = main.summary().into_iter().chain(br.summary()).map(|(n, c)| json!({"section": n, "index_range": c})).collect();
-    let ids = ["main", "bracket"];
+    let only = std::env::var("UV_SPACES").unwrap_or_default(); // development knob: run a subset of the spaces
+    let ids: Vec<&'static str> = ["main", "bracket"].into_iter().filter(|id| only.is_empty() || only.split(',').any(|x| x == *id)).collect();
     let spaces = ids.iter().map(|id| (*id, space(ctx.tier, id).unwrap())).collect();
     run_e1(
         ctx,
